@@ -593,10 +593,11 @@ def hex_escape(ctx, facts):
                "a non-printable byte is written as its high nibble ((c >> 4) & 0xF) then its low nibble (c & 0xF), both masked so that bytes "
                ">= 0x80 (sign-extending char) index inside the 16-digit table (found: %s)" % kinds, fn=f)
         # the escape is backslash, 'x', hi, lo in this order; printable bytes are copied
-        lits = []
-        for c in f.calls(r"::append\b"):
-            cl = [x.get("val") for x in walk(c) if x["k"] == "CharacterLiteral"]
-            if cl:
-                lits.append(cl[0])
-        ctx.ob("C04.R8b", "sanitize_non_printable_chars<%s>:escape-prefix" % (f.rec.get("targs") or ["?"])[0][:40], lits[:2] == [92, 120],
-               "the escape starts with '\\\\' 'x' (found character literals %s)" % lits[:3], fn=f)
+        text = ""
+        for x in f.walk():
+            if x["k"] == "CharacterLiteral" and 0 < (x.get("val") or 0) < 128:
+                text += chr(x["val"])
+            elif x["k"] == "StringLiteral" and x.get("str") not in ("0123456789ABCDEF", "0123456789abcdef"):
+                text += x.get("str", "")
+        ctx.ob("C04.R8b", "sanitize_non_printable_chars<%s>:escape-prefix" % (f.rec.get("targs") or ["?"])[0][:40], "\\x" in text,
+               "the escape is introduced by backslash-x (literal text found in the function: %r)" % text[:12], fn=f)
